@@ -153,10 +153,60 @@ fn main() {
 }
 """
 
+LOG2_MAIN = r"""#![allow(unused)]
+use substrate_fixed::types::*;
+use substrate_fixed::transcendental::{log2, ln};
+use std::panic::catch_unwind;
+macro_rules! sweep {
+    ($S:ty, $D:ty, $sb:ty, $sw:expr, $sf:expr, $df:expr, $dint:expr) => {{
+        let one_s: $sb = (1 as $sb) << $sf;
+        let mut ops: Vec<$sb> = vec![0, -1, -one_s, <$sb>::MIN, <$sb>::MAX, one_s + 1, one_s - 1, 3 * (one_s / 2), one_s / 4 * 3, one_s / 8 * 5, 5 * one_s, 7 * one_s];
+        for j in 0..($sw - 1) { let p: $sb = (1 as $sb) << j; ops.push(p); ops.push(p | 1); if j >= 1 { ops.push(p | (p >> 1)); } }
+        for b in ops {
+            let x = <$S>::from_bits(b);
+            let pow2 = b > 0 && (b & (b - 1)) == 0;
+            let e: i128 = if pow2 { (b as u128).trailing_zeros() as i128 } else { 0 };
+            // the reciprocal 2^(2 df) / (b * 2^(df - sf)) fits D  <=>  it is < 2^(df + dint - 1)
+            let recip_fits = b > 0 && { let n = (b as u128) << ($df - $sf); let q = if 2 * $df >= 128 { u128::MAX } else { (1u128 << (2 * $df)) / n }; 2 * $df < 128 && q < (1u128 << ($df + $dint - 1)) };
+            for which in 0..2 {
+                let r = if which == 0 { catch_unwind(|| log2::<$S, $D>(x)) } else { catch_unwind(|| ln::<$S, $D>(x)) };
+                let name = if which == 0 { "log2" } else { "ln" };
+                let what = match r {
+                    Err(_) => Some("panics".to_string()),
+                    Ok(Ok(v)) => {
+                        let rb = v.to_bits() as i128;
+                        if b <= 0 { Some(format!("returns Ok (bits {}) for a non-positive operand", rb)) }
+                        else if b >= one_s && rb < 0 { Some(format!("returns a negative value (bits {}) for an operand >= 1", rb)) }
+                        else if b <= one_s && rb > 0 { Some(format!("returns a positive value (bits {}) for an operand <= 1", rb)) }
+                        else if which == 0 && pow2 && rb != (e - $sf as i128) * (1i128 << $df) { Some(format!("returns bits {} for 2^{} (not exact)", rb, e - $sf as i128)) }
+                        else { None }
+                    }
+                    Ok(Err(_)) => if b > 0 && (b >= one_s || (recip_fits && 2 * $df < 128)) { Some("returns Err for a positive operand whose reciprocal is representable".to_string()) } else { None },
+                };
+                if let Some(w) = what {
+                    println!("FAIL|{}::<{}, {}>|{}|{}|{}|{}|{}", name, stringify!($S), stringify!($D), b, w, stringify!($sb), $sf, $df);
+                    break;
+                }
+            }
+        }
+    }};
+}
+fn main() {
+    std::panic::set_hook(Box::new(|_| {}));
+    sweep!(I9F23, I9F23, i32, 32, 23, 23, 9);
+    sweep!(I9F23, I32F32, i32, 32, 23, 32, 32);
+    sweep!(I32F32, I32F32, i64, 64, 32, 32, 32);
+    sweep!(I16F48, I16F48, i64, 64, 48, 48, 16);
+    sweep!(I64F64, I64F64, i128, 128, 64, 64, 64);
+    sweep!(I96F32, I96F32, i128, 128, 32, 32, 96);
+    println!("DONE");
+}
+"""
+
 
 def search(kind, repo, work, log):
     """-> counterexample dict (confirmed on the real code) or None"""
-    main_rs = SQRT_MAIN if kind == "sqrt" else POWI_MAIN
+    main_rs = {"sqrt": SQRT_MAIN, "log2": LOG2_MAIN}.get(kind, POWI_MAIN)
     outs = replay.run_rust(main_rs, repo, work, profiles=("release",))
     out = outs.get("release", "")
     if "DONE" not in out:
@@ -172,13 +222,21 @@ def search(kind, repo, work, log):
         expr = ("{ let r = substrate_fixed::transcendental::%s(%s::from_bits(%s as %s)); match r { Ok(v) => (v.to_bits() as i128) >= 0 && within4_wide(v.to_bits() as u128, (%s as u128) << %s, %s) && (%s != 0 || v.to_bits() == 0), Err(_) => false } }"
                 % (fn, S, b, sb, b, shift, df, b))
         desc = "%s(%s::from_bits(%s)) %s" % (fn, S, b, what)
+    elif kind == "log2":
+        _, fn, b, what, sb, sf, df = f
+        S = re.search(r"<(\w+),", fn).group(1)
+        one = "((1 as %s) << %s)" % (sb, sf)
+        expr = ("{ let b: %s = %s as %s; let r = substrate_fixed::transcendental::%s(%s::from_bits(b)); match r { Ok(v) => { let rb = v.to_bits() as i128; b > 0 && (b < %s || rb >= 0) && (b > %s || rb <= 0) "
+                "&& (%s || (b & (b - 1)) != 0 || rb == ((b as u128).trailing_zeros() as i128 - %s) * (1i128 << %s)) }, Err(_) => b <= 0 || b < %s } }"
+                % (sb, b, sb, fn, S, one, one, "true" if fn.startswith("ln") else "false", sf, df, one))
+        desc = "%s(%s::from_bits(%s)) %s" % (fn, S, b, what)
     else:
         _, fn, xb, n, what, sb = f
         S = re.search(r"<(\w+),", fn).group(1)
         expr = None
         desc = "%s(%s::from_bits(%s), %s) %s" % (fn, S, xb, n, what)
     ce = {"from_verifier": False, "confirmed": True, "found_by": "native sweep of the real code after the verifier rejected the obligation (tools/nativesweep.py)",
-          "failing_input": desc, "all_failing_type_pairs": ["%s: %s" % (x[1], x[3] if kind == "sqrt" else x[4]) for x in fails]}
+          "failing_input": desc, "all_failing_type_pairs": ["%s: %s" % (x[1], x[3] if kind in ("sqrt", "log2") else x[4]) for x in fails[:12]]}
     if expr:
         ce["witness"] = {"exprs": [expr], "expected": ["true"], "helpers": True}
     return ce
